@@ -159,11 +159,35 @@ fn gen(g: &mut G, thorough: bool) -> Plan {
             let mut ct = build(g, 7);
             if g.chance(1, 2) {
                 // the charset parameter proper, with values from its own small alphabet
-                let val: String = (0..g.usize_below(4)).map(|_| *g.pick(&["\"", "'", "utf-8", "UTF-16", "x", " ", ";", "=", "\u{e9}"])).collect();
+                let val: String = (0..g.usize_below(4)).map(|_| *g.pick(&["\"", "'", "utf-8", "UTF-16", "x", " ", ";", "=", "\u{e9}", "\\", "\"utf-8\\"])).collect();
+                // every second value is a quoted string in one of its awkward states: closed, unclosed, ending
+                // in an escape, escaping its own closing quote, empty, with a separator inside
+                let quoted = g.chance(1, 2);
+                let val = if quoted {
+                    g.probe("charset-parameter-as-a-quoted-string");
+                    (*g.pick(&["\"utf-8\"", "\"utf-8", "\"utf-8\\", "\"utf-8\\\"", "\"\\", "\"\\\\", "\"utf\\-8\"", "\"\"", "\"", "'utf-8'", "\"utf-8\";x", "\"a;b\"", "\"utf-8\" ", "\"\\\"\\"])).to_string()
+                } else {
+                    val
+                };
                 ct = format!("{}{}{}{}{}", g.pick(&["text/plain", "text/html", "", "x"]), g.pick(&[";", "; ", " ;  ", ";;"]), g.pick(&["charset", "CHARSET", "Charset"]), g.pick(&["=", "", " = "]), val);
+                if quoted && ct.len() % 3 != 0 {
+                    // (no draw) mostly in the one spelling every parser knows
+                    ct = format!("text/plain; charset={}", val);
+                }
             }
             let ce: String = (0..g.usize_below(4)).map(|_| *g.pick(&["gzip", "deflate", ",", " ", "identity", "x", "GZIP", "\"", ";q=0"])).collect();
             let loc: String = (0..g.usize_below(5)).map(|_| *g.pick(&["http://", "https://", "//", "/", "..", "a.test", ":", "80", "99999", "[", "]", "::1", "@", "#", "?", "%", " ", "\u{e9}", "\\"])).collect();
+            // (no draw) some Locations are long, with characters of two, three and four octets at every offset
+            // around the round numbers: whoever cuts, folds or excerpts such text (for a log line, say) must
+            // do it at a character boundary
+            let loc = if (ct.len() + ce.len()) % 3 == 0 {
+                let pad = (ct.len() * 37 + ce.len() * 11 + loc.len() * 5) % 40;
+                let base = [100usize, 230, 490, 1000][(ct.len() + loc.len()) % 4];
+                g.probe("long-location-with-multi-octet-characters");
+                format!("{}/{}\u{e9}\u{20ac}\u{1f600}\u{20ac}\u{fffd}\u{e9}{}", loc, "a".repeat(base + pad), "b".repeat(pad))
+            } else {
+                loc
+            };
             let status = *g.pick(&[200u16, 200, 301, 302, 307, 401, 407]);
             let mut w = format!("HTTP/1.1 {} X\r\n", status).into_bytes();
             if g.chance(3, 4) {
